@@ -325,24 +325,12 @@ def _r08e(rep):
 
 
 
-def _r08f(rep):
-    """The dipole-dipole term is subtracted (Python, at the commensurate points) and added back (compiled, at q) at the
-    same Cartesian wave vector: reduced q-points and directions become Cartesian through the reciprocal lattice in its
-    stored orientation (frame typing of the NAC classes; the rule of C14 restricted to dynamical_matrix.py)."""
-    from rules import c14
-
-    view = core.KernelView(rep, "R08f", only_compiled=False, keep=lambda f, q, c: f.endswith("harmonic/dynamical_matrix.py"))
-    c14._r14g(view)
-    if not any(r.startswith("R08f.") for r in rep.rules):
-        raise AnalysisError("R08f: the frame typing of the NAC classes produced no instance")
-
 
 _run_main = run
 
 
 def run(rep: core.Report):
     _run_main(rep)
-    _r08f(rep)
 
 
 def selftest():
